@@ -212,12 +212,15 @@ def check_and_move_expired(
     """
     with pool.connection() as conn:
         with conn.cursor() as cur:
-            # Find messages that have exceeded max_attempts
+            # Find messages that have exceeded max_attempts. A row whose
+            # lock is still live is being handled right now (its last
+            # attempt): leave it to its holder or to the lock expiry.
             cur.execute(
                 f"""
                 SELECT id, message_type, attempts
                 FROM {table_name}
                 WHERE attempts >= %(max_attempts)s
+                AND (locked_until IS NULL OR locked_until < NOW())
                 """,
                 {"max_attempts": max_attempts},
             )
